@@ -185,6 +185,10 @@ func runCheck(spec *PropSpec, tier string, seed, workers int) int {
 		cfg.Workers = workers
 		cfg.IntSolvers = hs.Int
 		cfg.CrossCheck = tier == "thorough"
+		cfg.MaxSeconds = 420
+		if tier == "thorough" {
+			cfg.MaxSeconds = 5400
+		}
 		if hs.Unwind > 0 {
 			cfg.Unwind = hs.Unwind
 		}
@@ -222,7 +226,7 @@ func runCheck(spec *PropSpec, tier string, seed, workers int) int {
 				ctx.inconcl = append(ctx.inconcl, fmt.Sprintf("%s: unmodelled: %s (x%d paths)", hs.Name, why, n))
 			}
 			if hr.BudgetHit {
-				ctx.inconcl = append(ctx.inconcl, hs.Name+": path budget exhausted")
+				ctx.inconcl = append(ctx.inconcl, hs.Name+": path or time budget of the exploration exhausted")
 			}
 			allFailures = append(allFailures, hr.Failures...)
 		}
